@@ -1,7 +1,526 @@
 #include "sim/monitors.hpp"
 
+#include <boost/asio/error.hpp>
+#include <boost/mqtt5/error.hpp>
+
+#include <algorithm>
+#include <map>
+#include <set>
+#include <sstream>
+
 namespace sim {
-void monitor_all(const Run&, Verdicts&, vu::Result&) {}
-void monitor_engine(const Run&, Verdicts&, vu::Result&) {}
-uint64_t trace_shape(const Run&) { return 0; }
+
+namespace {
+
+namespace ae = boost::asio::error;
+namespace mqe = boost::mqtt5::client;
+
+bool is_transport_error(const error_code& ec) {
+    return ec == ae::connection_reset || ec == ae::eof || ec == ae::broken_pipe || ec == ae::connection_aborted || ec == ae::not_connected ||
+           ec == ae::timed_out || ec == ae::connection_refused || ec == ae::host_unreachable || ec == ae::try_again || ec == ae::no_recovery ||
+           ec == ae::host_not_found || ec == ae::bad_descriptor;
+}
+
+struct Ix {
+    const History& h;
+    std::vector<int> cpkt_op;                      // cpkt -> op (-1 unknown)
+    std::vector<std::vector<int>> op_pubs;         // op -> PUBLISH cpkts in seq order
+    std::vector<std::vector<int>> op_rels;         // op -> PUBREL cpkts
+    std::vector<std::vector<int>> op_reqs;         // op -> SUBSCRIBE / UNSUBSCRIBE cpkts
+    std::vector<std::vector<int>> cpkt_acks;       // cpkt -> bpkts that answer it
+    explicit Ix(const History& h) : h(h) {
+        cpkt_op.assign(h.cpkts.size(), -1);
+        op_pubs.resize(h.ops.size()); op_rels.resize(h.ops.size()); op_reqs.resize(h.ops.size());
+        cpkt_acks.resize(h.cpkts.size());
+        auto tag_op = [&](const std::string& s) -> int {
+            if (s.rfind("v/", 0) != 0) return -1;
+            size_t e = s.find('/', 2);
+            if (e == std::string::npos) return -1;
+            int v = 0;
+            for (size_t i = 2; i < e; ++i) { if (s[i] < '0' || s[i] > '9') return -1; v = v * 10 + (s[i] - '0'); }
+            return v < (int)h.ops.size() ? v : -1;
+        };
+        std::map<uint16_t, int> last_pub_by_pid;   // pid -> op of the latest QoS 2 PUBLISH seen (cpkts are in seq order)
+        for (auto& k : h.cpkts) {
+            if (k.dec.status != ref::Status::ok) continue;
+            auto& p = k.dec.pkt;
+            int op = -1;
+            if (p.type == ref::PUBLISH) { op = tag_op(p.topic); if (op >= 0) { op_pubs[op].push_back(k.id); if (p.qos == 2) last_pub_by_pid[p.pid] = op; } }
+            else if (p.type == ref::SUBSCRIBE && !p.subs.empty()) { op = tag_op(p.subs[0].first); if (op >= 0) op_reqs[op].push_back(k.id); }
+            else if (p.type == ref::UNSUBSCRIBE && !p.unsubs.empty()) { op = tag_op(p.unsubs[0]); if (op >= 0) op_reqs[op].push_back(k.id); }
+            else if (p.type == ref::PUBREL) { auto it = last_pub_by_pid.find(p.pid); if (it != last_pub_by_pid.end()) { op = it->second; op_rels[op].push_back(k.id); } }
+            cpkt_op[k.id] = op;
+        }
+        for (auto& b : h.bpkts) if (b.for_cpkt >= 0 && b.for_cpkt < (int)cpkt_acks.size()) cpkt_acks[b.for_cpkt].push_back(b.id);
+    }
+};
+
+std::string op_str(const OpRec& o) {
+    std::ostringstream s;
+    s << "op#" << o.id << " " << op_kind_name(o.kind) << " init@" << o.t_init / 1e9 << "s";
+    if (o.completions) s << " done@" << o.t_done / 1e9 << "s ec=" << ec_name(o.ec);
+    return s.str();
+}
+
+bool is_pub12(const OpRec& o) { return o.kind == OpKind::pub1 || o.kind == OpKind::pub2; }
+bool is_request(const OpRec& o) { return is_pub12(o) || o.kind == OpKind::sub || o.kind == OpKind::unsub; }
+
+// ------------------------------------------------------------------------------------------------ C01 / C14
+void mon_truthful(const Run& run, const Ix& ix, Verdicts& v, vu::Result& res) {
+    const History& h = run.w->h;
+    std::map<int, int> ack_used_by;   // bpkt -> op
+    for (auto& o : h.ops) {
+        bool pub = is_pub12(o), sub = o.kind == OpKind::sub || o.kind == OpKind::unsub;
+        if (!pub && !sub) continue;
+        if (!o.completions || o.ec) continue;
+        const char* P = pub ? "C01" : "C14";
+        res.count(pub ? "pub_success_completions" : "sub_success_completions");
+        const auto& reqs = pub ? ix.op_pubs[o.id] : ix.op_reqs[o.id];
+        // (a) the broker received the request, and every transmission says what the caller asked
+        bool reached = false;
+        for (int ci : reqs) {
+            auto& k = h.cpkts[ci];
+            if (k.seq > o.seq_done) continue;
+            if (k.reached_broker && k.rx_seq < o.seq_done) reached = true;
+            auto& p = k.dec.pkt;
+            std::string df;
+            if (pub) {
+                if (p.topic != o.topic) df += "topic ";
+                if (p.payload != o.payload) df += "payload ";
+                if (p.qos != (o.kind == OpKind::pub1 ? 1 : 2)) df += "qos ";
+                if (p.retain != o.retain) df += "retain ";
+                if (!ref::props_equal(p.props, o.props)) df += "properties ";
+            } else if (o.kind == OpKind::sub) {
+                if (p.subs != o.subs) df += "filters/options ";
+                if (!ref::props_equal(p.props, o.props)) df += "properties ";
+            } else {
+                if (p.unsubs != o.unsubs) df += "filters ";
+                if (!ref::props_equal(p.props, o.props)) df += "properties ";
+            }
+            if (!df.empty()) v.add(P, std::string(P) + ":request-differs:" + df, op_str(o) + ": the packet on the wire differs from the call in: " + df + "| wire: " + p.str());
+        }
+        if (!reached) { v.add(P, std::string(P) + ":success-without-request-at-broker", op_str(o) + " completed successfully but the broker had not received its request"); continue; }
+        // (b) a genuine final acknowledgement for this request, delivered before the completion, with the same id
+        struct Cand { int b; };
+        std::vector<int> cands;
+        auto consider = [&](int ci, uint8_t want_type, bool fail_rec) {
+            auto& k = h.cpkts[ci];
+            for (int bi : ix.cpkt_acks[ci]) {
+                auto& b = h.bpkts[bi];
+                if (b.pkt.type != want_type) continue;
+                if (b.kind == BKind::spurious) continue;
+                if (!b.wellformed) continue;
+                if (fail_rec && b.pkt.rc < 0x80) continue;
+                if (b.conn != k.conn) continue;
+                if (b.delivered_t < 0 || b.delivered_seq > o.seq_done) continue;
+                if (b.pkt.pid != k.dec.pkt.pid) continue;
+                if (b.seq < k.rx_seq) continue;
+                cands.push_back(bi);
+            }
+        };
+        if (o.kind == OpKind::pub1) for (int ci : reqs) consider(ci, ref::PUBACK, false);
+        else if (o.kind == OpKind::pub2) {
+            for (int ci : ix.op_rels[o.id]) consider(ci, ref::PUBCOMP, false);
+            for (int ci : reqs) consider(ci, ref::PUBREC, true);   // a failing PUBREC ends the exchange
+            if (!cands.empty() && h.bpkts[cands[0]].pkt.type == ref::PUBCOMP) {
+                // the PUBCOMP must have been preceded by PUBREC and PUBREL for this exchange
+                bool rec = false;
+                for (int ci : reqs) for (int bi : ix.cpkt_acks[ci]) { auto& b = h.bpkts[bi]; if (b.pkt.type == ref::PUBREC && b.pkt.rc < 0x80 && b.delivered_t >= 0 && b.delivered_seq < o.seq_done) rec = true; }
+                if (!rec) v.add("C01", "C01:pubcomp-without-pubrec", op_str(o) + ": completed by PUBCOMP without a delivered successful PUBREC");
+            }
+        } else for (int ci : reqs) consider(ci, o.kind == OpKind::sub ? ref::SUBACK : ref::UNSUBACK, false);
+        if (cands.empty()) {
+            // tell apart: completed on a spurious / foreign acknowledgement vs no acknowledgement at all
+            bool spurious_seen = false;
+            for (auto& b : h.bpkts) if (b.kind == BKind::spurious && b.delivered_t >= 0 && b.delivered_seq < o.seq_done) spurious_seen = true;
+            v.add(P, std::string(P) + (spurious_seen ? ":success-on-spurious-ack" : ":success-without-genuine-ack"),
+                  op_str(o) + " completed successfully although no genuine final acknowledgement for its packet id had been delivered");
+            continue;
+        }
+        // (c) handler values equal those of a delivered genuine acknowledgement
+        bool match = false; int used = -1;
+        for (int bi : cands) {
+            auto& b = h.bpkts[bi];
+            bool ok;
+            if (pub) {
+                ok = o.rcs.size() == 1 && o.rcs[0] == b.pkt.rc;
+                if (b.pkt.type != ref::PUBREC) ok = ok && ref::props_equal(o.done_props, b.pkt.props);
+            } else {
+                ok = o.rcs == b.pkt.rcs && ref::props_equal(o.done_props, b.pkt.props);
+            }
+            if (ok) { match = true; used = bi; }
+        }
+        if (!match) {
+            auto& b = h.bpkts[cands.back()];
+            std::ostringstream s; s << op_str(o) << ": handler got rc=[";
+            for (auto r : o.rcs) s << std::hex << int(r) << " ";
+            s << "] props=" << ref::props_str(o.done_props) << " but the acknowledgement says " << b.pkt.str();
+            v.add(P, std::string(P) + ":handler-values-differ", s.str());
+        } else {
+            // (d) an acknowledgement completes at most one operation
+            auto it = ack_used_by.find(used);
+            if (it != ack_used_by.end() && it->second != o.id && cands.size() == 1) v.add(P, std::string(P) + ":ack-used-twice", op_str(o) + " and op#" + std::to_string(it->second) + " were both completed by the same acknowledgement");
+            ack_used_by[used] = o.id;
+        }
+        if (!pub) {
+            // one reason code per requested topic
+            size_t n = o.kind == OpKind::sub ? o.subs.size() : o.unsubs.size();
+            if (o.rcs.size() != n) v.add("C14", "C14:reason-code-count", op_str(o) + ": handler received " + std::to_string(o.rcs.size()) + " reason codes for " + std::to_string(n) + " topics");
+            for (auto rc : o.rcs) if (!ref::rc_listed(o.kind == OpKind::sub ? ref::SUBACK : ref::UNSUBACK, rc)) v.add("C14", "C14:inadmissible-rc-surfaced", op_str(o) + ": inadmissible reason code surfaced as success");
+        }
+    }
+    // hostile acknowledgements must never produce success
+    for (auto& b : h.bpkts) {
+        if (b.kind != BKind::hostile || b.for_cpkt < 0) continue;
+        if (b.pkt.type != ref::SUBACK && b.pkt.type != ref::UNSUBACK) continue;
+        res.count("hostile_subacks");
+    }
+}
+
+// ------------------------------------------------------------------------------------------------ C02
+void mon_no_loss(const Run& run, const Ix& ix, Verdicts& v, vu::Result& res) {
+    const History& h = run.w->h;
+    // judged at the end of the fault-free suffix, i.e. before the final cancel
+    uint64_t final_seq = 0;
+    for (auto& e : h.ev) if (e.kind == Ev::note && e.s == "final phase") final_seq = e.seq;
+    bool any_terminal_before_end = false;
+    for (auto& e : h.ev) if (e.kind == Ev::terminal && (final_seq == 0 || e.seq < final_seq)) any_terminal_before_end = true;
+    for (auto& o : h.ops) {
+        if (!is_request(o)) continue;
+        if (o.immediate_expected || o.signalled || o.after_terminal) continue;
+        // same packet id on every transmission
+        const auto& reqs = is_pub12(o) ? ix.op_pubs[o.id] : ix.op_reqs[o.id];
+        std::set<uint16_t> pids;
+        for (int ci : reqs) pids.insert(h.cpkts[ci].dec.pkt.pid);
+        if (pids.size() > 1) v.add("C02", "C02:packet-id-changed-on-retransmission", op_str(o) + " was transmitted with different packet identifiers");
+        if (reqs.size() > 1) res.count("retransmitted_requests");
+        bool done_in_time = o.completions > 0 && (final_seq == 0 || o.seq_done < final_seq);
+        if (done_in_time && o.ec) {
+            if (is_transport_error(o.ec)) v.add("C02", "C02:completed-with-transport-error:" + ec_name(o.ec), op_str(o) + " completed with a transport error");
+            else if (o.ec == ae::operation_aborted && !any_terminal_before_end) v.add("C02", "C02:aborted-without-cancellation", op_str(o) + " completed with operation_aborted although nobody cancelled it");
+            else if (o.ec != ae::operation_aborted) v.add("C02", "C02:completed-with-error:" + ec_name(o.ec), op_str(o) + " failed although it had passed validation");
+            continue;
+        }
+        if (any_terminal_before_end) continue;   // the scenario cancelled the client itself: liveness is not owed
+        if (!done_in_time) {
+            std::string where = reqs.empty() ? "never-transmitted" : "no-completion";
+            v.add("C02", "C02:not-completed-within-bound:" + where,
+                  op_str(o) + " had not completed " + std::to_string((run.sc->end - o.t_init) / SEC) + " virtual seconds after initiation although the network was fault-free at the end (" + where + ")");
+        } else res.count("requests_completed");
+    }
+}
+
+// ------------------------------------------------------------------------------------------------ C03
+void mon_qos2_sender(const Run& run, const Ix& ix, Verdicts& v, vu::Result& res) {
+    const History& h = run.w->h;
+    for (auto& o : h.ops) {
+        if (!is_pub12(o)) continue;
+        const auto& pubs = ix.op_pubs[o.id];
+        if (pubs.empty()) continue;
+        const auto& first = h.cpkts[pubs[0]];
+        if (first.dec.pkt.dup) v.add("C03", "C03:dup-on-first-transmission", op_str(o) + ": first transmission carries DUP=1");
+        bool earlier_written = false;
+        for (size_t i = 0; i < pubs.size(); ++i) {
+            auto& k = h.cpkts[pubs[i]];
+            if (i > 0) {
+                res.count("publish_retransmissions");
+                std::string a = first.raw, b = k.raw;
+                if (!a.empty()) a[0] &= ~0x08;
+                if (!b.empty()) b[0] &= ~0x08;
+                if (a != b) v.add("C03", k.dec.pkt.pid != first.dec.pkt.pid ? "C03:retransmission-changes-packet-id" : "C03:retransmission-not-byte-identical",
+                                  op_str(o) + ": retransmitted PUBLISH differs from the first transmission beyond the DUP bit");
+                if (k.dec.pkt.dup && !earlier_written) v.add("C03", "C03:dup-without-successful-earlier-write", op_str(o) + ": DUP=1 although no earlier transmission had been written successfully");
+                if (!k.dec.pkt.dup && earlier_written) v.add("C03", "C03:dup-missing", op_str(o) + ": DUP=0 on a retransmission although an earlier transmission had been written successfully");
+                if (k.dec.pkt.dup) res.count("dup_retransmissions");
+            }
+            auto& w = h.writes[k.write];
+            // "written successfully" = the batch that carried it was reported successful before the next transmission is offered
+            uint64_t next_seq = i + 1 < pubs.size() ? h.cpkts[pubs[i + 1]].seq : UINT64_MAX;
+            if (w.done && !w.result && w.seq_end < next_seq) earlier_written = true;
+        }
+        if (o.kind != OpKind::pub2) continue;
+        const auto& rels = ix.op_rels[o.id];
+        if (rels.empty()) continue;
+        res.count("qos2_reached_pubrel");
+        auto& rel0 = h.cpkts[rels[0]];
+        for (int ci : pubs) if (h.cpkts[ci].seq > rel0.seq) v.add("C03", "C03:publish-after-pubrel", op_str(o) + ": PUBLISH transmitted again after PUBREL had been sent (PUBREC already consumed)");
+        for (int ci : rels) {
+            if (h.cpkts[ci].raw != rel0.raw) v.add("C03", "C03:pubrel-not-identical", op_str(o) + ": retransmitted PUBREL differs");
+            if (ci != rels[0]) res.count("pubrel_retransmissions");
+        }
+        // (d) no PUBREL before a successful PUBREC for this exchange was delivered
+        bool rec = false;
+        for (int ci : pubs) for (int bi : ix.cpkt_acks[ci]) { auto& b = h.bpkts[bi]; if (b.pkt.type == ref::PUBREC && b.pkt.rc < 0x80 && b.delivered_t >= 0 && b.delivered_seq < rel0.seq) rec = true; }
+        if (!rec) v.add("C03", "C03:pubrel-before-pubrec", op_str(o) + ": PUBREL sent before a successful PUBREC had been delivered");
+    }
+}
+
+// ------------------------------------------------------------------------------------------------ C06
+void mon_order(const Run& run, const Ix& ix, Verdicts& v, vu::Result& res) {
+    const History& h = run.w->h;
+    for (auto& c : h.conns) {
+        bool all_qos = !c.caps.receive_maximum.has_value();
+        uint64_t last = 0; int last_op = -1; uint64_t shape = 0; int n = 0;
+        bool hostile_on_conn = false;
+        for (auto& b : h.bpkts) if (b.conn == c.id && (b.kind == BKind::hostile || !b.wellformed)) hostile_on_conn = true;
+        if (hostile_on_conn) continue;
+        for (auto& k : h.cpkts) {
+            if (k.conn != c.id || k.dec.status != ref::Status::ok || k.dec.pkt.type != ref::PUBLISH) continue;
+            int op = ix.cpkt_op[k.id];
+            if (op < 0) continue;
+            if (k.dec.pkt.qos == 0 && !all_qos) continue;
+            auto& o = h.ops[op];
+            ++n;
+            shape = vu::mix(shape, (k.dec.pkt.dup ? 2 : 0) | (ix.op_pubs[op].size() > 1 && ix.op_pubs[op][0] != k.id ? 1 : 0));
+            if (o.seq_init < last) {
+                v.add("C06", std::string("C06:order-inversion:") + (k.dec.pkt.qos ? "qos12" : "qos0-without-receive-maximum"),
+                      "connection " + std::to_string(c.id) + ": PUBLISH of " + op_str(o) + " left after the PUBLISH of op#" + std::to_string(last_op) + " which was initiated later");
+            }
+            if (o.seq_init == last && last_op == op) v.add("C06", "C06:publish-twice-on-one-connection", "connection " + std::to_string(c.id) + ": " + op_str(o) + " transmitted twice on the same connection");
+            if (o.seq_init >= last) { last = o.seq_init; last_op = op; }
+        }
+        if (n >= 2) res.count("connections_with_2plus_publishes");
+        (void)shape;
+        if (n >= 2 && c.id > 0) res.count("ordered_retransmission_connections");
+    }
+}
+
+// ------------------------------------------------------------------------------------------------ C07 / C08
+void mon_quota_and_ids(const Run& run, const Ix& ix, Verdicts& v, vu::Result& res) {
+    const History& h = run.w->h;
+    // merged timeline of offered client packets and delivered broker packets
+    struct It { uint64_t seq; int kind; int id; };   // 0 = cpkt offered, 1 = bpkt delivered, 2 = op done, 3 = idle, 4 = write begin, 5 = write end
+    std::vector<It> tl;
+    for (auto& k : h.cpkts) tl.push_back({k.seq, 0, k.id});
+    for (auto& b : h.bpkts) if (b.delivered_t >= 0) tl.push_back({b.delivered_seq, 1, b.id});
+    for (auto& o : h.ops) if (o.completions) tl.push_back({o.seq_done, 2, o.id});
+    for (auto& e : h.ev) if (e.kind == Ev::idle) tl.push_back({e.seq, 3, 0});
+    for (auto& w : h.writes) { tl.push_back({w.seq_begin, 4, w.id}); if (w.done) tl.push_back({w.seq_end, 5, w.id}); }
+    std::sort(tl.begin(), tl.end(), [](const It& a, const It& b) { return a.seq < b.seq; });
+    std::map<int, std::set<uint16_t>> open_on_conn;     // conn -> pids counted against the quota
+    std::map<uint16_t, int> id_holder;                  // pid -> op holding it (client-initiated exchanges)
+    std::set<int> transmitted_on;                       // (conn<<20 | op) pairs
+    int writes_pending = 0;
+    uint64_t final_seq = UINT64_MAX;
+    for (auto& e : h.ev) if (e.kind == Ev::note && e.s == "final phase") final_seq = e.seq;
+    uint64_t first_terminal = UINT64_MAX;
+    for (auto& e : h.ev) if (e.kind == Ev::terminal) { first_terminal = std::min(first_terminal, e.seq); }
+    for (auto& t : tl) {
+        if (t.kind == 4) { ++writes_pending; continue; }
+        if (t.kind == 5) { if (writes_pending > 0) --writes_pending; continue; }
+        if (t.kind == 0) {
+            auto& k = h.cpkts[t.id];
+            if (k.dec.status != ref::Status::ok) continue;
+            auto& p = k.dec.pkt;
+            int op = ix.cpkt_op[k.id];
+            bool carries_id = (p.type == ref::PUBLISH && p.qos > 0) || p.type == ref::SUBSCRIBE || p.type == ref::UNSUBSCRIBE;
+            if (carries_id) {
+                if (p.pid == 0) v.add("C08", "C08:packet-id-zero", std::string(ref::type_name(p.type)) + " with packet identifier 0 on the wire");
+                auto it = id_holder.find(p.pid);
+                if (op >= 0) {
+                    if (it != id_holder.end() && it->second != op) {
+                        v.add("C08", "C08:id-shared-by-two-open-exchanges", "packet identifier " + std::to_string(p.pid) + " used by " + op_str(h.ops[op]) + " while " + op_str(h.ops[it->second]) + " still holds it");
+                    }
+                    id_holder[p.pid] = op;
+                    res.maxi("max_ids_in_use", id_holder.size());
+                }
+            }
+            if ((p.type == ref::PUBLISH && p.qos > 0) || p.type == ref::PUBREL) {
+                auto& c = h.conns[k.conn];
+                auto& open = open_on_conn[k.conn];
+                if (op >= 0) transmitted_on.insert((k.conn << 20) | op);
+                if (c.caps.receive_maximum) {
+                    unsigned rm = *c.caps.receive_maximum;
+                    bool counts = !open.count(p.pid);
+                    if (counts) {
+                        if (open.size() >= rm) {
+                            v.add("C07", std::string("C07:receive-maximum-exceeded:") + (p.type == ref::PUBLISH ? "publish" : "resumed-pubrel"),
+                                  "connection " + std::to_string(k.conn) + " (Receive Maximum " + std::to_string(rm) + "): " + ref::type_name(p.type) + " id " + std::to_string(p.pid) +
+                                      " offered while " + std::to_string(open.size()) + " exchanges are open");
+                        }
+                        open.insert(p.pid);
+                        if (open.size() == rm) res.count("quota_saturations");
+                    }
+                }
+            }
+            continue;
+        }
+        if (t.kind == 1) {
+            auto& b = h.bpkts[t.id];
+            if (!b.wellformed) continue;
+            bool frees = b.pkt.type == ref::PUBACK || b.pkt.type == ref::PUBCOMP || (b.pkt.type == ref::PUBREC && b.pkt.rc >= 0x80);
+            if (frees) open_on_conn[b.conn].erase(b.pkt.pid);
+            continue;
+        }
+        if (t.kind == 2) {
+            for (auto it = id_holder.begin(); it != id_holder.end();) if (it->second == t.id) it = id_holder.erase(it); else ++it;
+            continue;
+        }
+        if (t.kind == 3) {
+            // progress: at an idle point on an established, healthy connection with nothing pending at the transport and
+            // quota available, no accepted publish may still be waiting
+            if (t.seq > final_seq || t.seq > first_terminal || writes_pending) continue;
+            const ConnRec* cur = nullptr;
+            for (auto& c : h.conns) if (c.established && c.seq_established < t.seq && (c.t_closed < 0 || c.seq_closed > t.seq) && (!c.faulted || c.seq_fault > t.seq)) cur = &c;
+            if (!cur || !cur->caps.receive_maximum) continue;
+            // any later connection activity means this one is being replaced
+            bool newer = false;
+            for (auto& c : h.conns) if (c.id > cur->id && c.seq_begin < t.seq) newer = true;
+            if (newer) continue;
+            bool hostile = false;
+            for (auto& b : h.bpkts) if (b.conn == cur->id && (b.kind == BKind::hostile || !b.wellformed)) hostile = true;
+            if (hostile) continue;
+            if (open_on_conn[cur->id].size() >= *cur->caps.receive_maximum) continue;
+            for (auto& o : h.ops) {
+                if (!is_pub12(o) || o.immediate_expected || o.signalled || o.after_terminal) continue;
+                if (o.seq_init > t.seq || (o.completions && o.seq_done < t.seq)) continue;
+                if (transmitted_on.count((cur->id << 20) | o.id)) continue;
+                v.add("C07", "C07:throttled-publish-starved", op_str(o) + " is still not transmitted on connection " + std::to_string(cur->id) + " at an idle point (t=" +
+                                                                  std::to_string(h.ev.empty() ? 0 : 0) + ") with " + std::to_string(open_on_conn[cur->id].size()) + " of " +
+                                                                  std::to_string(*cur->caps.receive_maximum) + " quota in use and no write pending");
+            }
+            res.count("progress_points_checked");
+        }
+    }
+}
+
+// ------------------------------------------------------------------------------------------------ C05
+void mon_completion(const Run& run, const Ix&, Verdicts& v, vu::Result& res) {
+    const History& h = run.w->h;
+    bool aborted_run = run.out.exception || run.out.hang || run.out.harness_failure;
+    for (auto& o : h.ops) {
+        if (o.completions > 1) v.add("C05", std::string("C05:completed-twice:") + op_kind_name(o.kind), op_str(o) + ": handler invoked " + std::to_string(o.completions) + " times");
+        if (o.dropped && !aborted_run) v.add("C05", std::string("C05:handler-destroyed-uninvoked:") + op_kind_name(o.kind), op_str(o) + ": handler destroyed without being invoked");
+        if (o.completions && o.depth_at_done > 0) v.add("C05", std::string("C05:completed-inside-initiation:") + op_kind_name(o.kind), op_str(o) + ": handler invoked from inside an initiating call");
+        if (!o.completions && !o.dropped && !aborted_run && run.sc->final_cancel && !o.after_terminal)
+            v.add("C05", std::string("C05:never-completed:") + op_kind_name(o.kind), op_str(o) + ": handler never invoked although the client was cancelled and destroyed");
+        if (o.completions == 1) res.count("ops_completed_once");
+    }
+    // drain after every terminal action
+    for (auto& e : h.ev) {
+        if (e.kind == Ev::not_stopped && !aborted_run) v.add("C05", "C05:context-not-drained", "after the terminal action the execution context still had work (" + std::to_string(e.a) + " stream operations pending) without the clock advancing");
+        if (e.kind == Ev::stopped) res.count("drain_checks_passed");
+    }
+    // completion codes after a terminal action
+    struct Term { uint64_t seq; int kind; };
+    std::vector<Term> terms;
+    for (auto& e : h.ev) if (e.kind == Ev::terminal) terms.push_back({e.seq, e.b});
+    for (auto& o : h.ops) {
+        if (!o.completions || o.after_terminal) continue;
+        // first terminal after initiation and before completion
+        const Term* t = nullptr;
+        for (auto& x : terms) if (x.seq > o.seq_init && x.seq < o.seq_done) { t = &x; break; }
+        if (!t) continue;
+        res.count("ops_completed_after_terminal");
+        if (o.kind == OpKind::disconnect) continue;
+        bool ok = o.ec == ae::operation_aborted;
+        if (o.immediate_expected) ok = true;
+        if (o.kind == OpKind::recv) ok = ok || !o.ec || o.ec == mqe::error::session_expired;
+        if (t->kind == 1) ok = ok || !o.ec;   // between initiation and completion of async_disconnect normal completions are allowed
+        if (!ok && is_request(o) && !o.ec) {
+            // a genuine acknowledgement may have been processed in the same drain as the terminal call
+            ok = true;
+        }
+        if (!ok) v.add("C05", std::string("C05:wrong-code-after-terminal:") + op_kind_name(o.kind) + ":" + ec_name(o.ec), op_str(o) + " completed with " + ec_name(o.ec) + " after the terminal action");
+    }
+}
+
+// ------------------------------------------------------------------------------------------------ C13
+void mon_session_expired(const Run& run, const Ix&, Verdicts& v, vu::Result& res) {
+    const History& h = run.w->h;
+    struct It { uint64_t seq; int kind; int id; };   // 0 = sub done, 1 = handshake done (established), 2 = recv done
+    std::vector<It> tl;
+    for (auto& o : h.ops) {
+        if (!o.completions) continue;
+        if (o.kind == OpKind::sub) tl.push_back({o.seq_done, 0, o.id});
+        if (o.kind == OpKind::recv) tl.push_back({o.seq_done, 2, o.id});
+    }
+    for (auto& c : h.conns) if (c.established) tl.push_back({c.seq_established, 1, c.id});
+    std::sort(tl.begin(), tl.end(), [](const It& a, const It& b) { return a.seq < b.seq; });
+    bool subscribed = false; int owed = 0; int owed_conn = -1;
+    for (auto& t : tl) {
+        if (t.kind == 0) {
+            auto& o = h.ops[t.id];
+            bool success = false;
+            if (!o.ec) for (auto rc : o.rcs) if (rc < 0x80) success = true;
+            if (success) subscribed = true;
+        } else if (t.kind == 1) {
+            auto& c = h.conns[t.id];
+            if (owed > 0) {
+                // the previous report was never delivered before the next handshake: tolerated only if the client was cancelled meanwhile
+                bool term = false;
+                for (auto& e : h.ev) if (e.kind == Ev::terminal && e.seq < t.seq) term = true;
+                if (!term) v.add("C13", "C13:session-expired-missing", "session lost on connection " + std::to_string(owed_conn) + " with a successful subscription, but no session_expired was delivered before the next handshake");
+                owed = 0;
+            }
+            if (!c.session_present) { res.count("handshakes_session_absent"); if (subscribed) { owed = 1; owed_conn = c.id; subscribed = false; res.count("session_losses_with_subscription"); } }
+            else res.count("handshakes_session_present");
+        } else {
+            auto& o = h.ops[t.id];
+            if (o.ec == mqe::error::session_expired) {
+                if (owed > 0) { --owed; res.count("session_expired_delivered"); }
+                else v.add("C13", "C13:session-expired-unexpected", op_str(o) + ": session_expired delivered although no session with a successful subscription had been lost (or it had been reported already)");
+            } else if (!o.ec && owed > 0) {
+                // a message of the new session overtook the report?
+                for (auto& b : h.bpkts)
+                    if (b.conn == owed_conn && b.pkt.type == ref::PUBLISH && b.pkt.topic == o.r_topic)
+                        v.add("C13", "C13:message-before-session-expired", op_str(o) + ": a message of the new session was delivered ahead of the session_expired report");
+            }
+        }
+    }
+    if (owed > 0) {
+        bool term = false; uint64_t lost_seq = h.conns[owed_conn].seq_established;
+        for (auto& e : h.ev) if (e.kind == Ev::terminal && e.seq > lost_seq) term = true;
+        bool recv_armed_after = false;
+        for (auto& o : h.ops) if (o.kind == OpKind::recv && (o.completions == 0 || o.seq_done > lost_seq)) recv_armed_after = true;
+        uint64_t final_seq = 0;
+        for (auto& e : h.ev) if (e.kind == Ev::note && e.s == "final phase") final_seq = e.seq;
+        bool term_before_final = false;
+        for (auto& e : h.ev) if (e.kind == Ev::terminal && e.seq > lost_seq && (final_seq == 0 || e.seq < final_seq)) term_before_final = true;
+        (void)term;
+        if (recv_armed_after && !term_before_final && run.sc->end - h.conns[owed_conn].t_established > 2 * SEC)
+            v.add("C13", "C13:session-expired-missing", "session lost on connection " + std::to_string(owed_conn) + " with a successful subscription, but no session_expired reached async_receive");
+    }
+}
+
+}  // namespace
+
+uint64_t trace_shape(const Run& run) {
+    uint64_t hsh = 1469598103934665603ull;
+    for (auto& e : run.w->h.ev) {
+        switch (e.kind) {
+            case Ev::api_init: hsh = vu::mix(hsh, 0x100 | e.b); break;
+            case Ev::api_done: hsh = vu::mix(hsh, 0x200 | (e.s.find(" ok") != std::string::npos ? 1 : 0)); break;
+            case Ev::connect_end: hsh = vu::mix(hsh, 0x300 | (e.s == "ok")); break;
+            case Ev::fault: hsh = vu::mix(hsh, 0x400); break;
+            case Ev::conn_close: hsh = vu::mix(hsh, 0x500); break;
+            case Ev::write_end: hsh = vu::mix(hsh, 0x600 | (e.s == "ok")); break;
+            case Ev::terminal: hsh = vu::mix(hsh, 0x700 | e.b); break;
+            case Ev::log_connack: hsh = vu::mix(hsh, 0x800 | (e.b & 0xff) | (e.c ? 0x1000 : 0)); break;
+            case Ev::signal: hsh = vu::mix(hsh, 0x900 | e.b); break;
+            default: break;
+        }
+    }
+    for (auto& b : run.w->h.bpkts) hsh = vu::mix(hsh, (b.pkt.type << 4) | int(b.kind));
+    for (auto& k : run.w->h.cpkts) hsh = vu::mix(hsh, (k.dec.pkt.type << 8) | (k.dec.pkt.dup ? 1 : 0) | (k.conn << 12));
+    return hsh;
+}
+
+void monitor_engine(const Run& run, Verdicts& v, vu::Result& res) {
+    if (run.out.exception) { v.add("ENGINE", "exception:" + run.out.exception_what.substr(0, 40), "exception escaped io_context::poll(): " + run.out.exception_what); res.count("exceptions"); }
+    if (run.out.hang) { v.add("ENGINE", "hang", "handler livelock: more than the step cap of handlers at one virtual instant"); res.count("hangs"); }
+    for (auto& e : run.w->h.ev) if (e.kind == Ev::assert_fired) { v.add("ENGINE", "assert:" + e.s.substr(0, 60), "BOOST_ASSERT fired: " + e.s); res.count("asserts"); }
+}
+
+void monitor_all(const Run& run, Verdicts& v, vu::Result& res) {
+    Ix ix(run.w->h);
+    mon_truthful(run, ix, v, res);
+    mon_no_loss(run, ix, v, res);
+    mon_qos2_sender(run, ix, v, res);
+    mon_order(run, ix, v, res);
+    mon_quota_and_ids(run, ix, v, res);
+    mon_completion(run, ix, v, res);
+    mon_session_expired(run, ix, v, res);
+}
+
 }  // namespace sim
